@@ -2,7 +2,7 @@
 #include "hist.hpp"
 
 // cfg[8] fault kind: 0 none, 1 fail k-th allocation, 2 fail every allocation from the k-th on, 3 refuse k-th transmit, 4 refuse every transmit,
-//                    5 failing getters (mask in cfg[9])          cfg[9] = k or mask
+//                    5 failing getters (mask in cfg[9]), 6 the k-th call of ONE getter fails once (cfg[9] = bit number * 256 + k)          cfg[9] = k or mask
 // cfg[10] constructor test: 0 none, 1 mapping, 2 enumeration, 3 session, 4 session table, 5 all four as the Darwin daemon creates them; cfg[9] = which allocation fails
 struct Fault { int kind = 0; int64_t arg = 0; };
 
@@ -11,6 +11,9 @@ struct Outcome {
     uint64_t allocs = 0, sends = 0, alloc_failed = 0, refused = 0;
     uint32_t getter_calls = 0;
     long first_hit = -1;                     // step at which the injected fault first took effect
+    std::set<size_t> faulted_steps;          // steps during which a fault was (or may have been) active
+    std::vector<int> stations;               // sender station per step (-1: none)
+    std::vector<uint32_t> getter_calls_per_bit = std::vector<uint32_t>(16, 0);
     std::vector<Bytes> frames;               // zero-extended received frames (for the solicitation budget)
     std::string err;
 };
@@ -27,16 +30,22 @@ static std::vector<Op> continuation(const HCfg &) {
     return c;
 }
 
+static uint32_t g_nth_bit_for_checks = 0;
+static void getter_mask_for_checks(uint32_t b) { g_nth_bit_for_checks = b; }
+
 static Outcome exec(const Case &c, const HCfg &h, Fault f, bool with_recovery) {
+    g_nth_bit_for_checks = 0;
     Outcome o;
     World w;
     HCfg hh = h;
     uint32_t getter_mask = f.kind == 5 ? (uint32_t)f.arg : 0;
+    uint32_t nth_bit = f.kind == 6 ? (1u << ((f.arg >> 8) & 15)) : 0;
     hh.fail = 0;
     hh.apply_global(w);
     IfCfg ic = hh.ifcfg();
     int P = w.add_if(ic), F = w.add_if(ic);
     w.ctx(P)->fail = getter_mask & 0xFFFF;
+    if (nth_bit) { w.ctx(P)->fail_nth_mask = nth_bit; w.ctx(P)->fail_nth = (long)(f.arg & 0xFF); getter_mask_for_checks(nth_bit); }
     vp_global()->fail = getter_mask & 0xFFFF0000u;
     Mac own = h.ownmac();
     switch (f.kind) {
@@ -57,25 +66,30 @@ static Outcome exec(const Case &c, const HCfg &h, Fault f, bool with_recovery) {
         uint64_t hits_before = vp_alloc_failed() + vp_send_refused();
         uint32_t calls_before = w.ctx(P)->calls_mask | vp_global()->calls_mask;
         std::vector<Ev> evs = w.deliver(P, b.frame);
-        if (o.first_hit < 0 && (vp_alloc_failed() + vp_send_refused() > hits_before || (((w.ctx(P)->calls_mask | vp_global()->calls_mask) & ~calls_before) & getter_mask))) o.first_hit = (long)i;
+        if (o.first_hit < 0 && (vp_alloc_failed() + vp_send_refused() > hits_before || (((w.ctx(P)->calls_mask | vp_global()->calls_mask) & ~calls_before) & getter_mask) ||
+                                (nth_bit && w.ctx(P)->fail_nth == 0))) o.first_hit = (long)i;
+        if (o.first_hit == (long)i || (o.first_hit >= 0 && (f.kind == 2 || f.kind == 4 || f.kind == 5))) o.faulted_steps.insert(i);
         o.frames.resize(i + 1); o.frames[i] = b.frame; o.frames[i].resize(h.mtu, 0);
+        o.stations.resize(i + 1, -1); o.stations[i] = b.station;
         shadow_update_sem(sh, frame_sem(b.frame), b);
         if (vp_ledger_violations() && o.err.empty()) o.err = fmt("step %zu: %s", i, vp_ledger_last_violation());
         // frames sent while the fault is active must still be well-formed (MTU bound waived when the MTU getter fails; zero source accepted when the address getter fails)
         for (auto &e : evs) {
             if (e.kind == VE_SLEEP || !o.err.empty()) continue;
-            std::string wf = wellformed(e.data, h.mtu, own, !(getter_mask & VF_MTU));
-            if (!wf.empty() && (getter_mask & VF_MAC)) wf = wellformed(e.data, h.mtu, ZEROMAC, !(getter_mask & VF_MTU));
+            uint32_t gm = getter_mask | g_nth_bit_for_checks;
+            std::string wf = wellformed(e.data, h.mtu, own, !(gm & VF_MTU));
+            if (!wf.empty() && (gm & VF_MAC)) wf = wellformed(e.data, h.mtu, ZEROMAC, !(gm & VF_MTU));
             if (!wf.empty()) o.err = fmt("step %zu: frame sent under the fault is malformed: %s", i, wf.c_str());
         }
         o.per_step.push_back(std::move(evs));
     }
     o.allocs = vp_alloc_calls(); o.sends = vp_send_count(); o.alloc_failed = vp_alloc_failed(); o.refused = vp_send_refused();
     o.getter_calls = w.ctx(P)->calls_mask | vp_global()->calls_mask;
+    for (int k = 0; k < 16; k++) o.getter_calls_per_bit[k] = w.ctx(P)->calls[k];
     if (!with_recovery || !o.err.empty()) return o;
     // ---- the fault clears; a Reset arrives; from now on P must be indistinguishable from a fresh instance
     vp_fail_alloc_at(0); vp_fail_alloc_from(0); vp_fail_send_at(0); vp_fail_send_always(0);
-    w.ctx(P)->fail = 0; vp_global()->fail = 0;
+    w.ctx(P)->fail = 0; vp_global()->fail = 0; w.ctx(P)->fail_nth_mask = 0; w.ctx(P)->fail_nth = 0;
     Mac m = h.st_real(2);
     Bytes reset = mk_simple(BCAST, m, 0, OP_RESET, BCAST, m, 0);
     (void)w.deliver(P, reset);
@@ -175,7 +189,29 @@ static Verdict run(const Case &c) {
             if (!e.empty()) v.fail(fmt("step %zu (after the fault): %s", i, e.c_str()));
         }
     }
-    bool hit = (f.kind == 1 || f.kind == 2) ? o.alloc_failed > 0 : (f.kind == 3 || f.kind == 4) ? o.refused > 0 : f.kind == 5 ? (o.getter_calls & (uint32_t)f.arg) != 0 : false;
+    // One mapper at a time also under faults: a request that was hit by a fault is answered partially or not at all - it does not release or
+    // hand over the mapper role. Only the "must be silent" direction is judged (faults may of course prevent answers); a faulted session opener
+    // may or may not have taken effect.
+    if (v.ok) {
+        MapperModel mm;
+        for (size_t i = 0; i < o.per_step.size() && v.ok; i++) {
+            if (i >= o.frames.size() || o.frames[i].empty() || i >= o.stations.size() || o.stations[i] < 0) continue;
+            Sem sem = frame_sem(o.frames[i]);
+            bool faulted = o.faulted_steps.count(i) != 0;
+            size_t attempts = 0;
+            for (auto &e : o.per_step[i]) if (e.kind != VE_SLEEP) attempts++;
+            int st = o.stations[i];
+            if (sem == SEM_DISCOVER) {
+                int exp = mm.expect_discover(st);
+                if (exp == 0 && attempts > 0) v.fail(fmt("step %zu: Discover from station %d was answered although another station is the active mapper and no Reset arrived (fault %s)", i, st, o.first_hit >= 0 && (long)i > o.first_hit ? "earlier in the history" : "not yet hit"));
+                if (attempts > 0) mm.observe_discover(st, true);
+                else if (faulted) mm.command(st);                    // the opener may have taken effect although its answer was lost
+                else mm.observe_discover(st, false);
+            } else if (sem == SEM_RESET) mm.reset();
+            else if (sem == SEM_COMMAND) mm.possible.insert(st);   // a command may open a session, and whether a stranger's command takes the role over is left open by C05
+        }
+    }
+    bool hit = f.kind == 6 ? o.first_hit >= 0 : (f.kind == 1 || f.kind == 2) ? o.alloc_failed > 0 : (f.kind == 3 || f.kind == 4) ? o.refused > 0 : f.kind == 5 ? (o.getter_calls & (uint32_t)f.arg) != 0 : false;
     v.nontrivial = hit && total_free >= 1;
     v.cls(fmt("fault-kind-%d", f.kind));
     if (hit) v.cls("fault-hit");
@@ -200,17 +236,22 @@ static std::vector<Case> corpus() {
     add(base(0, 1500), {disc, mk(K_QLT, {-1, 7, 0x11, 0, 0}), mk(K_QLT, {-1, 8, 0x13, 0, 0}), mk(K_QLT, {-1, 9, 0x77, 0, 0})});
     add(base(1, 1500), {qdisc, mk(K_QLT, {-1, 7, 0x0E, 0, 1}), mk(K_RESET, {0, 1, 1}), qdisc});
     add(base(0, 1500), {disc, mk(K_PROBE, {1, 0, 1, 0}), mk(K_EMIT, {-1, 5, -1}, d3), mk(K_QUERY, {-1, 6}), mk(K_QLT, {-1, 7, 0x0E, 0, 0}), mk(K_RESET, {0, 0, 1}), disc, mk(K_QUERY, {-1, 9})});
+    Op disc1 = mk(K_DISCOVER, {1, 0, 2, 3, 0, 0, -1});
+    add(base(0, 1500), {disc, disc, disc1, mk(K_QUERY, {-1, 4}), disc, disc1});                       // a second station knocks while the first is the mapper
+    add(base(1, 600), {disc, mk(K_QLT, {-1, 7, 0x0E, 0, 0}), mk(K_QLT, {-1, 8, 0x0E, 566, 0})});    // multi-frame icon at a non-1500 MTU
+    { HCfg hj = base(0, 9000); hj.icon = Bytes(20000, 0x43); add(hj, {disc, mk(K_QLT, {-1, 7, 0x0E, 0, 0}), mk(K_QLT, {-1, 8, 0x0E, 8966, 0})}); }   // jumbo MTU
     return out;
 }
 
 int main(int argc, char **argv) {
     Args a = parse_args(argc, argv);
     if (!a.replay.empty()) return replay_case(a, run);
+    zygote_start(run);   // before any code under test runs in this process
     Current::install(a.failing);
     Evidence ev;
     ev.level_hint = "fault_enumeration";
     ev.rule = "scenario corpus (one per request type + compound ones; thorough adds rapidcheck-generated scenarios) x every fault point: fail exactly the k-th allocation for every k up to the scenario's allocation count, "
-              "fail every allocation from the k-th on, refuse the k-th transmit for every k and refuse all, every single failing getter, all pairs and random subsets; constructors with the 1st/2nd/... allocation failing. "
+              "fail every allocation from the k-th on, refuse the k-th transmit for every k and refuse all, every single failing getter, all pairs and random subsets, the k-th call of each per-interface getter failing once; constructors with the 1st/2nd/... allocation failing. "
               "Oracle: no sanitizer/ledger report, frames sent under the fault well-formed and not more than fault-free, after the fault clears + Reset exactly one block per interface and a fixed continuation byte-identical to a fresh instance. "
               "non-trivial = the injected fault was actually hit and the fault-free run transmits >= 1 frame; distinct = (scenario, fault)";
     bool ok = true;
@@ -236,6 +277,8 @@ int main(int argc, char **argv) {
         for (uint64_t k = 1; k <= fr.sends + 1; k++) { Case c = sc; c.cfg[8] = 3; c.cfg[9] = (int64_t)k; try_case(c, "c18-send-kth"); }
         { Case c = sc; c.cfg[8] = 4; try_case(c, "c18-send-always"); }
         for (int i = 0; i < NG; i++) { Case c = sc; c.cfg[8] = 5; c.cfg[9] = getters[i]; try_case(c, "c18-getter-single"); }
+        for (int bit = 0; bit < 11; bit++)   // the k-th call of one per-interface getter fails once (a getter that fails on one of two lookups of the same request)
+            for (uint32_t k = 1; k <= std::min<uint32_t>(fr.getter_calls_per_bit[bit], 8); k++) { Case c = sc; c.cfg[8] = 6; c.cfg[9] = bit * 256 + (int64_t)k; try_case(c, "c18-getter-kth-call"); }
         for (int i = 0; i < NG; i++) for (int j = i + 1; j < NG; j++) { Case c = sc; c.cfg[8] = 5; c.cfg[9] = getters[i] | getters[j]; try_case(c, "c18-getter-pair"); }
     }
     ev.extra["fault_points_enumerated_for_corpus"] = "true";
@@ -248,9 +291,10 @@ int main(int argc, char **argv) {
             Case c; h.to_case(c);
             c.ops = *hg::ops_gen(w, 1, 25);
             c.cfg.resize(11, 0);
-            int kind = *gx::range<int>(1, 5);
+            int kind = *gx::range<int>(1, 6);
             c.cfg[8] = kind;
             if (kind == 5) { int64_t m = 0; int n = *gx::range<int>(1, 6); for (int i = 0; i < n; i++) m |= getters[*gx::range<int>(0, NG - 1)]; c.cfg[9] = m; }
+            else if (kind == 6) c.cfg[9] = *gx::pick({0, 1, 0, 0, 2, 3, 4, 5}) * 256 + *gx::range<int64_t>(1, 6);
             else c.cfg[9] = *gx::bnd({1, 2, 3}, 1, 40, 1, 2);
             return c;
         });
